@@ -105,7 +105,11 @@ func ruleR11b(c *Ctx) {
 	})
 	read := map[string]bool{}
 	pinfo := c.Pkgs["soymsg/pomsg"].TypesInfo
-	ast.Inspect(nb.Body, func(x ast.Node) bool {
+	nbScope := &ast.BlockStmt{}
+	for _, hd := range c.withHelpers("soymsg/pomsg", nb, 2) {
+		nbScope.List = append(nbScope.List, hd.Body)
+	}
+	ast.Inspect(nbScope, func(x ast.Node) bool {
 		call, ok := x.(*ast.CallExpr)
 		if !ok {
 			return true
@@ -133,7 +137,7 @@ func ruleR11b(c *Ctx) {
 	}
 	c.floor("R11b", "reference keys", 2, len(all))
 	// length of the prefix skipped equals the prefix tested (ref[3:] after "id=")
-	ast.Inspect(nb.Body, func(x ast.Node) bool {
+	ast.Inspect(nbScope, func(x ast.Node) bool {
 		cc, ok := x.(*ast.CaseClause)
 		if !ok || len(cc.List) != 1 {
 			return true
@@ -288,7 +292,25 @@ func ruleR11d(c *Ctx) {
 	}
 	// variables assigned inside the loop only under a condition (switch/if), read later in the iteration
 	n := 0
-	ast.Inspect(loop.Body, func(x ast.Node) bool {
+	// the loop body and the helpers it calls for each entry (their locals and results are fresh per call)
+	bodies := c.nodeWithHelpers("soymsg/pomsg", loop.Body, 2)
+	lscope := &ast.BlockStmt{}
+	for _, b := range bodies {
+		if bs, ok := b.(*ast.BlockStmt); ok {
+			lscope.List = append(lscope.List, bs)
+		}
+	}
+	inHelper := func(obj types.Object) bool {
+		for _, b := range bodies[1:] {
+			for _, hd := range c.allFuncDecls("soymsg/pomsg") {
+				if ast.Node(hd.Body) == b && obj.Pos() >= hd.Pos() && obj.Pos() <= hd.End() {
+					return true
+				}
+			}
+		}
+		return false
+	}
+	ast.Inspect(lscope, func(x ast.Node) bool {
 		cc, ok := x.(*ast.CaseClause)
 		if !ok {
 			return true
@@ -308,7 +330,7 @@ func ruleR11d(c *Ctx) {
 					continue
 				}
 				n++
-				inside := declaredWithin(obj, loop.Body)
+				inside := declaredWithin(obj, loop.Body) || inHelper(obj)
 				c.check(inside, "R11d", "pomsg.newBundle per-entry "+id.Name, as.Pos(), "declared inside the loop: fresh for every catalogue entry",
 					id.Name+" is declared outside the loop over the catalogue entries and only assigned when an entry has the reference: its value leaks from one entry into the following ones (a plain message is then loaded as a plural of the previous entry's variable)")
 			}
